@@ -103,7 +103,7 @@ PROPS = {
         ],
     },
     'C08': {
-        'v_units': ['trap', 'pipeset', 'subshellcmd', 'cmdsubst', 'subshellstart', 'asynclist'],
+        'v_units': ['trap', 'pipeset', 'subshellcmd', 'cmdsubst', 'subshellstart', 'asynclist', 'blocksig'],
         'k_units': [],
         'level': 'proof',
         'explanation': (
@@ -125,7 +125,8 @@ PROPS = {
             ' Unit subshellcmd (Verus, compound_command/subshell.rs execute + subshell_main): for `( ... )` exactly one child is started and what runs in it is subshell_main on exactly this body; the awaited result of exactly that child is interpreted once (handle_job_status), `$?` becomes the status it stands for, and errexit is consulted exactly once, afterwards, with that status (a failing subshell ends the shell under errexit) - unless interpreting the result diverts (stopped child / SIGINT in an interactive shell), which is handed on without errexit; a child that cannot be started gives an interrupt with the error status and leaves `$?` alone. Inside the child the body runs once, its result is applied (apply_result), and the EXIT trap runs exactly once, after both.'
             ' Unit cmdsubst (Verus, yash-semantics/src/expansion/initial/command_subst.rs subshell_body + expand_common) over a model of the descriptor table: in the child, when the command text is run (at most once) its standard output IS the writing end of the pipe and the child holds no other descriptor of either end, nothing else changed (a failing dup2 is reported once and the text does not run); in the parent, whatever happens, afterwards neither end of the pipe is held and nothing else changed - also when the child could not be started, in which case nothing is read and nobody awaited; otherwise the output is read exactly once, from the reading end, at a moment when the parent holds NO descriptor of the writing end (so that end-of-file can come); then the child is awaited until a halt that is not a mere stop, every halt awaited being one of that child, and the status recorded for the substitution is the status that last halt stands for. NOT under contract: the tail of expand_common (UTF-8 decoding, removal of the trailing newlines, conversion to attributed characters), which is one opaque helper call here.'
             " Unit subshellstart (Verus, yash-env/src/subshell/config.rs Config::start - the common start-up code of every subshell kind): the job control granted is what the configuration asks for if the shell controls jobs at all; in the PARENT nothing but one fork happens, bracketed - iff the child is to ignore SIGINT / SIGQUIT, i.e. the configuration says so and the child is not job-controlled - by blocking the two signals and restoring exactly the saved mask on EVERY path after a successful block, including a failed fork (the parent's signal mask, stack and options are as before); the CHILD body, checked on a copy of the parent's environment (what fork gives it), does only process-group business (setpgid / tcsetpgrp, and only under job control), then disowns the jobs, calls TrapSet::enter_subshell exactly once with (ignore = asked for and not job-controlled, keep stopper dispositions = not job-controlled) BEFORE the task, runs the task exactly once in a Subshell frame on top of the parent's stack, with the parent's options unchanged and the job control granted, and then exits - it never returns into the parent's code."
-            " Unit asynclist (Verus, yash-semantics/src/command/item.rs Item::execute, execute_async, async_body, nullify_stdin): a synchronous item is exactly its and-or list, run in this shell, once; for `cmd &` exactly one child is started for exactly this and-or list, with background job control asked for and SIGINT / SIGQUIT ignored in it, the list does not run in this shell and the child is not awaited; if it was started, one job with its process ID enters the job table (owned, running, not yet reported; job-controlled iff job control was granted), `$!` becomes that process ID and `$?` is 0; if not, no job, `$!` untouched, an interrupt with status 126. In the child the list runs exactly once, its result is applied and the EXIT trap runs once, in this order; under job control standard input is left alone; nullify_stdin makes standard input /dev/null and changes nothing else (its assert_eq! is discharged from POSIX's lowest-free-descriptor rule)."),
+            " Unit asynclist (Verus, yash-semantics/src/command/item.rs Item::execute, execute_async, async_body, nullify_stdin): a synchronous item is exactly its and-or list, run in this shell, once; for `cmd &` exactly one child is started for exactly this and-or list, with background job control asked for and SIGINT / SIGQUIT ignored in it, the list does not run in this shell and the child is not awaited; if it was started, one job with its process ID enters the job table (owned, running, not yet reported; job-controlled iff job control was granted), `$!` becomes that process ID and `$?` is 0; if not, no job, `$!` untouched, an interrupt with status 126. In the child the list runs exactly once, its result is applied and the EXIT trap runs once, in this order; under job control standard input is left alone; nullify_stdin makes standard input /dev/null and changes nothing else (its assert_eq! is discharged from POSIX's lowest-free-descriptor rule)."
+            " Unit blocksig (Verus, yash-env/src/subshell.rs, the blanket impl of BlockSignals with which Config::start brackets the fork of a subshell that is to ignore SIGINT / SIGQUIT): block_sigint_sigquit adds exactly SIGINT and SIGQUIT to the set of blocked signals and hands out the mask that was in force (nothing changes on failure); restore_sigmask installs exactly the mask it is given; hence (lemma block_then_restore) the parent's signal mask after the bracket is what it was before, whatever was blocked before - with unit subshellstart, which proves that exactly the saved mask is restored on every path."),
         'trusted_base': ['Verus 0.2026.09.13 + Z3', '/verif/tools/vextract.py'],
         'assumptions': [
             'unit pipeset: the system traits Pipe / Close / Dup are replaced by one synchronous model trait over a ghost descriptor table (fd -> open file description); pipe() returns two descriptors that were not open; close() removes, dup/dup2 add; Env reduced to the system field; a failing close (ignored by the code) is excluded by hypothesis in the no-leak clause; assert_ne! must not fail (obligation)',
@@ -135,6 +136,7 @@ PROPS = {
             'unit cmdsubst: the system traits Close / Dup / ReadAll are one synchronous model trait over a ghost descriptor table (fd -> open file description) plus a log of read_all_to calls with the table at that moment; precondition: the two descriptors are a fresh pipe (distinct, open, the only descriptors of their descriptions); Env::wait_for_subshell_to_halt, Error::handle, the lexer constructor, read_eval_loop, ExitStatus::from(ProcessResult) are opaque; the decoding / newline-stripping tail of expand_common is replaced by one opaque helper (rule tokens-to-helper) and is NOT verified; `let x = loop { .. break v }` by rule loop-break-value; debug_assert_eq!(job_control, None) is an obligation; await points dropped; termination of the waiting loop not claimed',
             "unit subshellstart: the closure handed to Env::run_in_child_process is checked INLINE as a block working on verif_child_copy(env) (assumed: fork gives the child a copy of Env) and the fork is an opaque call that is told the child's event log, so the textual order parent-before / child / parent-after is not an execution order; push_frame's guard is taken to live until the child exits; bool::then_some + Option::flatten through a helper with the std meaning; the system calls (block_sigint_sigquit, restore_sigmask, setpgid, getpgrp, tcsetpgrp_with_block), get_tty, enter_subshell, disown_all, the task, exit_or_raise, OptionSet::set / get are opaque calls appending to an event log; the AsyncFnOnce bound is dropped from the signature; the nested `const ME` is lifted to module level; precondition: SIGINT / SIGQUIT are not already blocked by this mechanism; await points dropped",
             'unit asynclist: Config::new is the derived Default (assumed: no job control, nothing ignored); config.start(..) with its async closure is an opaque call recording the configuration and the and-or list (unit subshellstart has the real start); JobList::insert / set_last_async_pid, AndOrList::execute / to_string, apply_result, run_exit_trap, print_error, is_interactive opaque; the descriptor table is a model trait (close; open answers the lowest free descriptor); the C-string literal is a helper call (Verus has none); that standard input IS /dev/null without job control is proved for nullify_stdin but only stated for the job-control case in async_body (a failing nullify is ignored by the code); await points dropped',
+            'unit blocksig: trait Sigmask / Sigset are an assumed model with a ghost view of the blocked set (sigmask(op, old): on success the previous mask is stored through `old` and the mask becomes op applied to it); the impl `for S where S: Sigmask + ?Sized` is checked as methods of a wrapper struct around an arbitrary S (rule impl-header-override; Self::SavedMask = S::Sigset; ?Sized dropped); &self as &mut self; await points dropped',
         ],
     },
     'C01': {
